@@ -71,6 +71,11 @@ func vhArbitraryReader() *decompressor {
 	st.headerBuffered = hb
 	st.roffset = int64(verifrt.U32())
 	st.input = nil
+	if verifrt.Pick("olderr", 3) == 0 && wp%2 == 1 {
+		// abandoned in mid-stream: unconsumed compressed bytes of the old source are still referenced
+		st.input = []byte{0x4b, 0x4c, 0x4a, 0x06, 0x00, 0x78, 0x78, 0x78, 0x78, 0x78, 0x78}
+		verifrt.Cover("stale-input")
+	}
 	switch verifrt.Pick("olderr", 3) {
 	case 1:
 		r.err = CorruptInputError(7)
